@@ -16,13 +16,15 @@
 //	sto=<BatchSendTimeout ms> nd=<n> d<i>=<host>|<key>|<dataset>|<ok|bad>   (strings kit.Enc'ed)
 //
 // ops:  start | enq <dest> <target size | m> s=<script> | adv <ns> s=<script> | stop s=<script>
-//       cenq <k> <dest>[.<dest>…] s=<script>   k goroutines, released together while the harness holds
-//         the batch-map lock, each enqueue one small event; goroutine i uses the i-th destination
-//         (cyclically).  `ext order <first id> = <ids>` tells the oracle in which order the events
-//         ended up in their batches (the linearisation the implementation chose).
+//
+//	cenq <k> <dest>[.<dest>…] s=<script>   k goroutines, released together while the harness holds
+//	  the batch-map lock, each enqueue one small event; goroutine i uses the i-th destination
+//	  (cyclically).  `ext order <first id> = <ids>` tells the oracle in which order the events
+//	  ended up in their batches (the linearisation the implementation chose).
+//
 // script: comma separated behaviours, consumed per destination in request order, then `ok`:
 //
-//	ok okm sh~N lg~N pe~M ps~S ud udm em st~C sm~C sx~C ra~C~<Retry-After> to er cl hg hd
+//	ok okm sh~N lg~N pe~M ps~S ud udm em st~C sm~C sx~C ra~C~<Retry-After> to er cl cx hg hd
 //
 // advh <ns> <k> <dest>[.<dest>…] s=<script>: advance like `adv`; the first request that is answered
 // with `hd` is HELD by the upstream; while it is held (its sendBatch is in flight) k small events
@@ -123,7 +125,7 @@ func newRec(queued string) *recMetrics {
 }
 
 func (m *recMetrics) Register(metrics.Metadata) {}
-func (m *recMetrics) Increment(name string)    { touch(); m.mu.Lock(); m.ctr[name]++; m.mu.Unlock() }
+func (m *recMetrics) Increment(name string)     { touch(); m.mu.Lock(); m.ctr[name]++; m.mu.Unlock() }
 func (m *recMetrics) Count(name string, n int64) {
 	touch()
 	m.mu.Lock()
@@ -598,6 +600,8 @@ func serve(w http.ResponseWriter, q *http.Request) {
 		case <-q.Context().Done():
 		case <-time.After(10 * time.Second):
 		}
+	case "cx": // drop the connection without an answer
+		panic(http.ErrAbortHandler)
 	case "cl":
 		if hj, ok := w.(http.Hijacker); ok {
 			if c, _, err := hj.Hijack(); err == nil {
@@ -622,11 +626,11 @@ func startServer() {
 type dbgLogger struct{}
 type dbgEntry struct{ on bool }
 
-func (dbgLogger) Debug() logger.Entry         { return dbgEntry{} }
-func (dbgLogger) Info() logger.Entry          { return dbgEntry{} }
-func (dbgLogger) Warn() logger.Entry          { return dbgEntry{} }
-func (dbgLogger) Error() logger.Entry         { return dbgEntry{on: true} }
-func (dbgLogger) SetLevel(string) error       { return nil }
+func (dbgLogger) Debug() logger.Entry                  { return dbgEntry{} }
+func (dbgLogger) Info() logger.Entry                   { return dbgEntry{} }
+func (dbgLogger) Warn() logger.Entry                   { return dbgEntry{} }
+func (dbgLogger) Error() logger.Entry                  { return dbgEntry{on: true} }
+func (dbgLogger) SetLevel(string) error                { return nil }
 func (e dbgEntry) WithString(k, v string) logger.Entry { return e.WithField(k, v) }
 func (e dbgEntry) WithField(k string, v any) logger.Entry {
 	if e.on && (k == "error" || k == "err") {
@@ -786,12 +790,13 @@ func (r *runner) mkEvent(id, di int, target string) *types.Event {
 		d = r.dests[di]
 	}
 	ev := &types.Event{
-		Context:    context.Background(),
-		APIHost:    d.host,
-		APIKey:     d.key,
-		Dataset:    d.dataset,
-		SampleRate: 1,
-		Timestamp:  time.Unix(1700000000, 0),
+		Context:     context.Background(),
+		APIHost:     d.host,
+		APIKey:      d.key,
+		Dataset:     d.dataset,
+		Environment: envOf(d.key),
+		SampleRate:  1,
+		Timestamp:   time.Unix(1700000000, 0),
 	}
 	if target == "m" {
 		ev.Data = types.NewPayload(r.cfg, map[string]any{"id": int64(id), "bad": make(chan int)})
@@ -1215,7 +1220,20 @@ func (r *runner) do(op []string) (string, bool) {
 // ---------------------------------------------------------------------------------- generator
 
 var hostPool = []string{"http://h0.test", "http://h1.test:8080", "http://h2.test"}
-var keyPool = []string{"k0", "k1", "key with space", ""}
+var keyPool = []string{"k0", "k1", "key with space", "", "0123456789abcdef0123456789abcdef"}
+
+// envOf is the environment the router would have resolved for an API key: k0 and k1 are two ingest
+// keys of the same environment, the empty and the 32-hex key are classic keys (no environment).
+func envOf(key string) string {
+	switch key {
+	case "k0", "k1":
+		return "prod"
+	case "key with space":
+		return "dev"
+	}
+	return ""
+}
+
 var dsPool = []string{"ds0", "ds1", "data set", "a/b", "x%y", "ünï", "d+s?q#f"}
 var badHosts = []string{"http://[bad", "http://h0.test/%zz"}
 
@@ -1301,7 +1319,7 @@ func (comp) Gen(r *kit.Rng, maxLen int, tier string) kit.Case {
 	}
 	// some cases contain "enqueue while a timer-flushed batch is being sent" scenarios; the ones with
 	// a batch that needs two requests (> 5 MB) are kept rare in the quick tier
-	holdBig := big && r.Chance(map[bool]int{true: 22, false: 40}[tier == "quick"])
+	holdBig := big && r.Chance(map[bool]int{true: 30, false: 40}[tier == "quick"])
 	holdSmall := !big && !hang && r.Chance(25)
 	if holdBig {
 		mb = 10 + r.Intn(4)
@@ -1322,6 +1340,14 @@ func (comp) Gen(r *kit.Rng, maxLen int, tier string) kit.Case {
 				d.host, d.key = o.host, o.key
 			case 1:
 				d.host, d.dataset = o.host, o.dataset
+				if r.Chance(60) { // another ingest key of the same environment, same host and dataset
+					switch o.key {
+					case "k0":
+						d.key = "k1"
+					case "k1":
+						d.key = "k0"
+					}
+				}
 			case 2:
 				d.key, d.dataset = o.key, o.dataset
 			}
@@ -1461,7 +1487,9 @@ func (comp) Gen(r *kit.Rng, maxLen int, tier string) kit.Case {
 			}
 		}
 		rest := script()
-		sc := "hd"
+		// the first request of the flushed batch is held, or fails in the transport (connection
+		// dropped / refused / timed out on both attempts) while the later requests may succeed
+		sc := []string{"hd", "hd", "hd", "hd", "cx", "cx", "cl", "er", "to,to", "to,cx"}[r.Intn(10)]
 		if rest != "-" {
 			sc += "," + rest
 		}
